@@ -173,7 +173,14 @@ class _StatePointDict(JSONAttrDict):
             if error.errno != errno.ENOENT:
                 raise
 
+        old_filename = self.filename
         self.filename = job._statepoint_filename
+        # Setting the filename moves this file's thread lock to the new name.
+        # Independently opened handles of the same job still hold state point
+        # dicts under the old name, so keep a lock registered for it.
+        if type(self)._threading_support_is_active:
+            with type(self)._cls_lock:
+                type(self)._locks.setdefault(old_filename, RLock())
 
         if should_init:
             # Only initializing one job assumes that all changes in init are
